@@ -199,6 +199,19 @@ end Bus
 /-- run a sequence against the specification bus -/
 def runBus {α : Type} (p : Prog α) (b : Bus) : Out Bus α := p.run Bus.exec b
 
+/-- IEC 62386-102 9.3 / Table 15: INITIALISE, RANDOMISE and the configuration instructions are acted on only when
+they are received TWICE within 100 ms (a driver transmits a command twice exactly when the library flags it
+`sendtwice`); part 209: STORE COLOUR TEMPERATURE Tc LIMIT likewise.  A unit that hears such a command once
+ignores it. -/
+def Cmd.twiceRequired : Cmd → Bool
+  | .initialise _ | .randomise | .setShortAddress _ | .addToGroup _ _ | .removeFromGroup _ _
+  | .storeTcLimit _ => true
+  | _ => false
+
+/-- the bus as the driver drives it: a command flagged `sendtwice` goes out twice, any other once -/
+def Bus.execFlagged (b : Bus) (c : Cmd) (sendtwice : Bool) : Resp × Bus :=
+  if c.twiceRequired && !sendtwice then (.none, b) else Bus.exec b c
+
 /-- an adversarial environment: the `i`-th command gets the `i`-th answer, whatever it is -/
 def streamStep (answers : Nat → Resp) (i : Nat) (_ : Cmd) : Resp × Nat := (answers i, i + 1)
 
